@@ -818,6 +818,14 @@ class Evaluator:
                                           node)
                     if r is not NotImplemented:
                         return r
+                if isinstance(base, Abs) and f.attr in base.attrs:
+                    # a callable the rule stored on the abstract object
+                    stored = base.attrs[f.attr]
+                    if isinstance(stored, Closure):
+                        return stored.call(self, args, kwargs)
+                    if isinstance(stored, tuple) and len(stored) == 2 and \
+                            stored[0] == "pyfunc":
+                        return stored[1](*args, **kwargs)
                 if isinstance(base, Abs) and base.cls is not None:
                     m = base.cls.find_method(f.attr)
                     if m is not None and m.kind != "property":
